@@ -595,7 +595,7 @@ def write_scripts(path, g, paths, proj_keys, header_keys=None, id_prefix="p"):
 # --------------------------------------------------------------------------------------------
 # building harnesses
 # --------------------------------------------------------------------------------------------
-def compile_harness(src, out_name, extra_flags=None, sanitize=False, opt="-O1", timeout=600, defines=None):
+def compile_harness(src, out_name, extra_flags=None, sanitize=False, opt="-O1", timeout=600, defines=None, ndebug=True):
     os.makedirs(BUILD, exist_ok=True)
     out = os.path.join(BUILD, out_name)
     cmd = ["g++", "-std=c++20", opt, "-g", "-DCOCLS_VERIF", "-I" + os.path.join(VERIF, "rt/include"),
@@ -603,6 +603,10 @@ def compile_harness(src, out_name, extra_flags=None, sanitize=False, opt="-O1", 
            "-Wno-unused-result", "-o", out, src, "-lpthread", "-ldl"]
     if sanitize:
         cmd[3:3] = ["-fsanitize=address,undefined", "-fno-omit-frame-pointer"]
+    if ndebug:
+        # like the repository's own (RelWithDebInfo) build: library asserts off -- several of them
+        # perform extra atomic loads that would otherwise be scheduling points
+        cmd[3:3] = ["-DNDEBUG"]
     if defines:
         cmd[3:3] = ["-D" + d for d in defines]
     if extra_flags:
